@@ -7,6 +7,7 @@ import (
 	"fmt"
 	"path/filepath"
 	"sort"
+	"strings"
 	"testing"
 
 	"github.com/fluhus/biostuff/formats/newick"
@@ -328,6 +329,24 @@ func exhaustiveC18(thorough bool, emit func(C18Case) bool) {
 	for _, f := range codecNames {
 		ins := append(append([]string{}, smallInputs[f]...), tinyInputs[f]...)
 		for _, in := range ins {
+			if !emit(C18Case{Iter: f, Text: StreamText{Raw: gen.B(in)}}) || !emit(C18Case{Iter: f + "-file", Text: StreamText{Raw: gen.B(in)}}) {
+				return
+			}
+		}
+	}
+	// inputs as real tools write them, and a record with a line far longer than any line buffer
+	// (1.2 MiB) between two ordinary records
+	long := strings.Repeat("ACGTTGCAAC", 120000)
+	longInputs := map[string]string{
+		"fasta":  ">a\nAC\n>long\n" + long + "\n>b\nGT\n",
+		"fastq":  "@a\nAC\n+\nII\n@long\n" + long + "\n+\n" + strings.Repeat("I", len(long)) + "\n@b\nG\n+\nJ\n",
+		"sam":    "q1\t0\tr\t1\t2\tM\t=\t4\t5\tA\tI\nq2\t0\tr\t1\t2\tM\t=\t4\t5\t" + long + "\t" + strings.Repeat("I", len(long)) + "\nq3\t0\tr\t1\t2\tM\t=\t4\t5\tA\tI\n",
+		"samh":   "@CO\t" + long + "\nq1\t0\tr\t1\t2\tM\t=\t4\t5\tA\tI\n@CO\tx\n",
+		"bed":    "c\t1\t2\tn\nc\t1\t2\t" + long + "\nd\t3\t4\tm\n",
+		"newick": "(a,b)c;\n('" + long + "':1,b)d;\n(e)f;\n",
+	}
+	for _, f := range codecNames {
+		for _, in := range append([]string{longInputs[f]}, realInputs[f]...) {
 			if !emit(C18Case{Iter: f, Text: StreamText{Raw: gen.B(in)}}) || !emit(C18Case{Iter: f + "-file", Text: StreamText{Raw: gen.B(in)}}) {
 				return
 			}
